@@ -191,3 +191,103 @@ Fixpoint rsum (s : list xfer) : Z :=
 
 Definition is_prefix (p l : list byte) : Prop := exists q, l = p ++ q.
 Definition strict_prefix (p l : list byte) : Prop := exists q, q <> [] /\ l = p ++ q.
+
+(* ------------------------------------------------------------------ files *)
+
+(* What json_object_to_file(_ext) / json_object_from_file do with the FILE, not only with
+   the descriptor: a small file system (path -> contents) and open() with its flags as data,
+   honoured as the kernel does: O_CREAT creates an absent file empty, O_CREAT|O_EXCL refuses
+   an existing one, O_TRUNC (with write access) empties an existing one, the access mode
+   decides whether read()/write() on the descriptor fail with EBADF, O_APPEND moves every
+   write to the end.  Flags without effect on contents (O_CLOEXEC, the mode argument) are
+   not modelled. *)
+Inductive accmode := O_RDONLY | O_WRONLY | O_RDWR.
+Record oflags := mkofl { o_acc : accmode; o_creat : bool; o_trunc : bool; o_append : bool; o_excl : bool }.
+
+(* the flag words as written in json_util.c *)
+Definition TO_FILE_FLAGS : oflags := mkofl O_WRONLY true true false false.    (* O_WRONLY | O_TRUNC | O_CREAT *)
+Definition FROM_FILE_FLAGS : oflags := mkofl O_RDONLY false false false false. (* O_RDONLY *)
+
+Definition readable (a : accmode) : bool := match a with O_WRONLY => false | _ => true end.
+Definition writable (a : accmode) : bool := match a with O_RDONLY => false | _ => true end.
+
+Definition path := list byte.
+Definition fsys := list (path * list byte).
+
+Fixpoint fs_get (fs : fsys) (p : path) : option (list byte) :=
+  match fs with
+  | [] => None
+  | (q, c) :: t => if bytes_eqb q p then Some c else fs_get t p
+  end.
+Fixpoint fs_set (fs : fsys) (p : path) (c : list byte) : fsys :=
+  match fs with
+  | [] => [(p, c)]
+  | (q, d) :: t => if bytes_eqb q p then (q, c) :: t else (q, d) :: fs_set t p c
+  end.
+
+Record desc := mkdesc { d_path : path; d_off : Z; d_rd : bool; d_wr : bool; d_app : bool }.
+Inductive openres := OpenOk (fs' : fsys) (d : desc) | OpenFail (errno : Z).
+
+Definition ENOENT_ : Z := 2.
+Definition EBADF_ : Z := 9.
+Definition EEXIST_ : Z := 17.
+
+(* open(path, flags); [deny = Some e]: the kernel refuses for a reason outside this model
+   (permissions, descriptor table full, ...) with errno e *)
+Definition fs_open (deny : option Z) (fs : fsys) (p : path) (fl : oflags) : openres :=
+  match deny with
+  | Some e => OpenFail e
+  | None =>
+      let d := mkdesc p 0 (readable (o_acc fl)) (writable (o_acc fl)) (o_append fl) in
+      match fs_get fs p with
+      | None => if o_creat fl then OpenOk (fs_set fs p []) d else OpenFail ENOENT_
+      | Some c =>
+          if o_creat fl && o_excl fl then OpenFail EEXIST_
+          else OpenOk (fs_set fs p (if o_trunc fl && writable (o_acc fl) then [] else c)) d
+      end
+  end.
+
+(* a write of [bs] at offset [off] of a file holding [old] (off <= |old| here: no lseek) *)
+Definition desc_write (old : list byte) (off : Z) (bs : list byte) : list byte :=
+  zfirstn off old ++ bs ++ zskipn (off + zlen bs) old.
+
+(* the file after the descriptor received [bs] (all write() calls of one open descriptor,
+   in order: FdProofs.desc_write_app shows that call-by-call delivery at the advancing
+   offset is delivery of the concatenation) *)
+Definition fs_deliver (fs : fsys) (d : desc) (bs : list byte) : fsys :=
+  match fs_get fs (d_path d) with
+  | Some old => fs_set fs (d_path d) (desc_write old (if d_app d then zlen old else d_off d) bs)
+  | None => fs
+  end.
+
+Definition wout_dev (r : wout) : list byte :=
+  match r with WRet _ _ d _ => d | WSpin d _ => d | WOutOfSchedule d _ => d end.
+
+(* json_object_to_file_ext with the flag word as a parameter: result, file system after,
+   open() calls, close() calls.  A descriptor without write access makes the first write()
+   fail with EBADF. *)
+Definition object_to_file_with (fl : oflags) (deny : option Z) (fs : fsys) (p : path)
+    (sched : list xfer) (obj_null : bool) (ser : option (list byte)) : wout * fsys * Z * Z :=
+  if obj_null then (WRet (-1) true [] 0, fs, 0, 0)
+  else
+    match fs_open deny fs p fl with
+    | OpenFail _ => (WRet (-1) true [] 0, fs, 1, 0)
+    | OpenOk fs1 d =>
+        let r := object_to_fd_inner (if d_wr d then sched else Err EBADF_ :: sched) ser in
+        (r, fs_deliver fs1 d (wout_dev r), 1, match r with WRet _ _ _ _ => 1 | _ => 0 end)
+    end.
+
+Definition object_to_file_fs := object_to_file_with TO_FILE_FLAGS.
+
+(* json_object_from_file likewise; reading does not change the file *)
+Definition object_from_file_with (fl : oflags) (deny : option Z) (fs : fsys) (p : path)
+    parse app_ok (sched : list xfer) : rres * fsys * Z * Z :=
+  match fs_open deny fs p fl with
+  | OpenFail _ => (RRet (mkrout JNull MOpen 0 None 0), fs, 1, 0)
+  | OpenOk fs1 d =>
+      let data := match fs_get fs1 p with Some c => c | None => [] end in
+      let r := object_from_fd parse app_ok (if d_rd d then sched else Err EBADF_ :: sched) data in
+      (r, fs1, 1, match r with RRet _ => 1 | _ => 0 end)
+  end.
+
+Definition object_from_file_fs := object_from_file_with FROM_FILE_FLAGS.
